@@ -266,6 +266,11 @@ def call_contract(self, fc, recv, args, kwargs, line, label):
                 post_env = E.Env(loc, env.heap, env.alloc, spec=True, old=pre_env)
                 for x in ens:
                     self.assume(self.ev_spec(x, post_env))
+                inv_post_ = fc.inv_post if fc.inv_post is not None else (inv_pre or fc.kind == "init")
+                if inv_post_ and recv is not None and fc.kind != "init":
+                    # the callee proves its class invariant on every declared exceptional exit too (inv-preserve-on-raise)
+                    for e_, l_ in self.eng.invariants_of(recv.s.cls):
+                        self.assume(self.ev_spec(e_, post_env))
             raise E.PyExc(exc, line)
     # frame + postconditions
     self.apply_modifies(fc, pre_env)
@@ -689,8 +694,7 @@ def spec_call(self, n, env):
         sub = E.Env(dict(o.locals), o.heap, o.alloc, True, o, env.result, None, dict(env.binders))
         # `result`, ghost locals and binders stay visible inside old() (they are values, not state)
         for k, v in env.locals.items():
-            if k.startswith("g_") or k.startswith("_i") or k.startswith("_seq"):
-                sub.locals.setdefault(k, v)
+            sub.locals.setdefault(k, v)       # locals that did not exist at entry (witnesses, later locals) are plain values: visible
         return self.ev(A[0], sub)
     if name in ("forall", "exists"):
         return self.quantifier(n, env, name == "forall")
